@@ -12,7 +12,9 @@
    CHist: a threaded history of messages whose outcome the model decides completely
    (hand-over operations with valid arguments), random senders.
 
-   CInst: one instantiation attempt. *)
+   CInst: one instantiation attempt: who sent it (contract? answers Params?), whether the
+   address the message names is a contract (recorded; the model must not look at it),
+   whether the remaining arguments are those of the ordinary flow, and the outcome. *)
 From LP Require Import Auth.
 (* Part 1 (the vending minters' full handler model) is tied through the sale-world
    vocabulary: the harness prints its sender sweeps over the reserved handlers as `scase`
@@ -93,7 +95,7 @@ Record hstep := mkH { h_env : aenv; h_sender : addr; h_msg : amsg; h_ok : bool; 
 Inductive c05_case :=
 | CRow (env : aenv) (init : astate) (m : amsg) (guards_ok : bool) (calls : list acall)
 | CHist (init : astate) (steps : list hstep)
-| CInst (t : inst_target) (sender_is_contract sender_answers_params : bool) (ok : bool).
+| CInst (t : inst_target) (p : inst_parties) (args_ok : bool) (ok : bool).
 
 (* one call of a row:
    - the model refuses (sender is not the principal / no such message): the
@@ -123,8 +125,10 @@ Definition c05_check (c : c05_case) : bool :=
   match c with
   | CRow env init m g calls => forallb (row_call_ok env init m g) calls
   | CHist init steps => hist_ok init steps
-  | CInst t ic ap ok =>
-      (* an instantiation by a sender the model does not allow must fail; an allowed one
-         may still fail on other guards *)
-      if inst_allowed t ic ap then true else negb ok
+  | CInst t p args_ok ok =>
+      (* decided by the SENDER alone (ip_named_is_contract is carried by the case and
+         ignored by inst_allowed): a sender the model does not allow must fail; an
+         allowed one must succeed when the harness vouches for the other arguments
+         (args_ok: the message is one the ordinary flow sends) *)
+      if inst_allowed t p then (if args_ok then ok else true) else negb ok
   end.
